@@ -965,6 +965,11 @@ def admission_window(c):
                 if addr == "d" and op == "disable":
                     continue
                 hists.append((f"{op} {addr} {direction}", [f"connect {addr} {direction} 1", f"{op} {addr} - 0", "probe 1 - 0"], "noopen"))
+    # UpdatePeer with a session-affecting change (hold time 90 -> 30) while a session is up: the live session is reset, its
+    # slot is free again, and the next connection is set up with the new value
+    for direction in ("P", "A"):
+        hists.append((f"update s {direction}", [f"connect s {direction} 0", "probe 1 - 0", "update s - 0", "probe 1 - 0",
+                                               f"connect s {direction} 0", "probe 2 - 0"], "update"))
     with open(inp, "w") as f:
         for _, ops, _ in hists:
             f.write("walk\nadd s - 0\n")
@@ -986,9 +991,24 @@ def admission_window(c):
             continue
         n += 1
         last = res[-1]
-        if want == "open" and last != "open":
+        if want == "update":
+            # results: add, connect, probe (OPEN hold 90), update, probe, connect, probe
+            if res[2] != "open:90" or res[3] != "ok":
+                raise vf.ToolError(f"admission_window: {name}: unexpected set-up {res}")
+            why = None
+            if res[4] in ("silent",) or res[4].startswith("open"):
+                why = "UpdatePeer changed the hold time but the live session was not reset (nothing reached the remote end)"
+            elif res[5] != "accepted":
+                why = "after UpdatePeer reset the session, the neighbour's next connection was refused"
+            elif res[6] != "open:30":
+                why = f"the connection after UpdatePeer was not set up with the new hold time (the probe saw {res[6]})"
+            if why:
+                c.violation("admission.update", {"history": ops, "results": res, "why": why},
+                            {"harness": "admission_replay", "ops": ["add s - 0"] + ops})
+            continue
+        if want == "open" and not last.startswith("open"):
             raise vf.ToolError(f"admission_window: control history {name}: the probe saw {last}, not the OPEN")
-        if want == "noopen" and last == "open":
+        if want == "noopen" and last.startswith("open"):
             c.violation("admission.window", {"history": ops, "results": res,
                                               "why": "the neighbour was disabled / deleted after the connection was admitted and before "
                                                      "its session task started; the connection sent an OPEN all the same"},
